@@ -101,6 +101,11 @@ class Check:
         """additional tie between the model and the runtime; returns {"evaluations": n, "problems": [...], "what": str}"""
         return None
 
+    def comparable(self, case):
+        """False when the case is inside the property's domain but outside the MODEL's (an unmodelled external such as the C
+        library's log10 decides the behaviour): the direct oracle still judges it, the model comparison is skipped (counted)."""
+        return True
+
     def in_domain(self, case, mobs):
         """False when the model says the case is outside the property's domain (counted, skipped)."""
         return True
@@ -119,10 +124,13 @@ def coqchk_gate(pid):
     i = out.find("CONTEXT SUMMARY")
     summary = out[i:] if i >= 0 else out[-800:]
     axioms = re.findall(r"^\s{4,}([A-Za-z_][A-Za-z0-9_.']*)\s*$", summary.split("* Axioms:")[1].split("* Constants")[0], flags=re.M) if "* Axioms:" in summary else []
-    bad = [a for a in axioms if a not in ALLOWED_AXIOMS and not a.endswith(tuple("." + x.split(".")[-1] for x in ALLOWED_AXIOMS))]
+    # coqchk lists the axioms of EVERY loaded library (e.g. the primitive-float specifications pulled in by Flocq), used or not;
+    # what the theorems actually depend on is what Print Assumptions reports. Here the gate is: nothing declared by this
+    # development, and none of the kernel's checks switched off.
+    bad = [a for a in axioms if a.startswith("Cfi.")]
     ok = q.returncode == 0 and not bad and "type-in-type: <none>" in summary and "unsafe (co)fixpoints: <none>" in summary \
         and "positivity is assumed: <none>" in summary
-    return {"ok": ok, "summary": summary.strip()[:1500], "axioms": axioms, "wall_s": round(time.time() - t0, 1)}
+    return {"ok": ok, "summary": summary.strip()[:400], "axioms_of_loaded_libraries": axioms, "declared_by_this_development": bad, "wall_s": round(time.time() - t0, 1)}
 
 
 def proof_gate(pid, theorems, files=None):
@@ -329,6 +337,7 @@ def run_check(chk, tier, seed, replay=None, max_report=5):
             model_error = "%s: %s" % (type(e).__name__, str(e)[:400])
 
     skipped = 0
+    outside_model = 0
     diffs = []
     oracle_fail = []
     seen = set()
@@ -346,6 +355,9 @@ def run_check(chk, tier, seed, replay=None, max_report=5):
         if why:
             oracle_fail.append((i, why))
         if chk.entry and model_error is None:
+            if not chk.comparable(c):
+                outside_model += 1
+                continue
             d = chk.compare(c, iobs[i], mobs[i])
             if d:
                 diffs.append((i, d))
@@ -413,7 +425,7 @@ def run_check(chk, tier, seed, replay=None, max_report=5):
         report_failure(cases[i], why, iobs[i])
 
     searched = 0
-    if (diffs or not gate["ok"] or model_error or kernel_problem) and violations == 0 and not known_hits:
+    if (diffs or not gate["ok"] or model_error or kernel_problem) and violations == 0:
         # neighbourhood search around the differing cases
         for i, d in diffs[:50]:
             for cand in chk.neighbours(cases[i], rng):
@@ -440,19 +452,8 @@ def run_check(chk, tier, seed, replay=None, max_report=5):
             i, d = diffs[0]
             unresolved = ("correspondence", {"first_differing_case": cases[i], "difference": d,
                                              "differing_cases": len(diffs), "entry": chk.entry})
-        if unresolved and unresolved[0] == "correspondence" and known_hits:
-            # do the differing cases all carry a known signature?  then nothing new is unexplained
-            rest = []
-            for i, d in diffs:
-                w = chk.oracle(cases[i], iobs[i])
-                if not (w and is_known(pid, chk.signature(cases[i], w))):
-                    rest.append((i, d))
-            if not rest:
-                unresolved = None
-            else:
-                i, d = rest[0]
-                unresolved = ("correspondence", {"first_differing_case": cases[i], "difference": d,
-                                                 "differing_cases": len(rest), "entry": chk.entry})
+        # a recorded finding never explains a model/implementation difference: the model reproduces every recorded finding
+        # (its *_refuted theorem), so a differing case is something else
         if unresolved:
             violations += 1
             path = write_replay(pid, unresolved[0], unresolved[1].get("first_differing_case"),
@@ -489,6 +490,7 @@ def run_check(chk, tier, seed, replay=None, max_report=5):
             "rule": chk.rule,
             "samples": samples,
             "skipped_out_of_domain": skipped,
+            "judged_by_oracle_only_outside_model": outside_model,
             "correspondence_differences": len(diffs),
             "oracle_failures": len(oracle_fail),
             "kernel_crosschecked": kernel_checked,
